@@ -56,11 +56,11 @@ func zzC06BCHeader(bc *core.BlockChain) *types.Header { return zzC06Parent }
 
 type zzC06Chain struct{}
 
-func (zzC06Chain) VersionForRound(uint64) (*params.YouParams, error)       { return nil, nil }
-func (zzC06Chain) GetHeader(common.Hash, uint64) *types.Header             { return nil }
-func (zzC06Chain) GetHeaderByHash(common.Hash) *types.Header               { return nil }
-func (zzC06Chain) GetBlock(common.Hash, uint64) *types.Block               { return nil }
-func (zzC06Chain) CurrentHeader() *types.Header                            { return zzC06Parent }
+func (zzC06Chain) VersionForRound(uint64) (*params.YouParams, error) { return nil, nil }
+func (zzC06Chain) GetHeader(common.Hash, uint64) *types.Header       { return nil }
+func (zzC06Chain) GetHeaderByHash(common.Hash) *types.Header         { return nil }
+func (zzC06Chain) GetBlock(common.Hash, uint64) *types.Block         { return nil }
+func (zzC06Chain) CurrentHeader() *types.Header                      { return zzC06Parent }
 
 // observable validator-side state of a world
 type zzC06Obs struct {
@@ -113,7 +113,6 @@ func zzC06Twin(w *zzC07World) *context {
 
 // zzH_C06_maporder: rewardsToPool and distributeRewards give the same state under every
 // pair of map iteration orders.
-//
 func zzH_C06_maporder_pool() { zzC06MapOrder(0) }
 func zzH_C06_maporder_dist() { zzC06MapOrder(1) }
 
